@@ -79,7 +79,9 @@ func c15CheckLookup(c *ev.Collector, t ev.Fataler, name, spelled string, masked 
 		return nil, false
 	}
 	if !known {
-		c.Report(t, "C15|table|unknown-name|"+name, fmt.Sprintf("registered name %q is not in the independent width table", name), name)
+		// a name the transcribed OpenFlow / Open vSwitch table does not have: the oracle
+		// cannot say what it should resolve to, so the case is counted, not judged
+		c.Excluded("registered name outside the transcribed OXM/NXM table")
 		return f, false
 	}
 	got := hdrOf(f)
